@@ -104,7 +104,7 @@ def whole_io(ctx, fb, cfg):
                 bad.append((path, cal.split("::")[-1], t["sp"][0]))
     ctx.check(not bad, "R10-5", "whole-message I/O[%s]" % cfg, "%d Read/Write calls in the API layer, all read_to_end / read_exact / write_all" % n,
               "partial transfers: %s - a reader/writer that moves fewer bytes than asked makes the call proceed with a truncated message" % bad[:4])
-    ctx.floor("io-calls[%s]" % cfg, n, 40 if cfg != "stateless" else 20)
+    ctx.floor("io-calls[%s]" % cfg, n, 20 if cfg != "stateless" else 10)   # call-site counts move with harmless refactors (a loop over an array instead of four calls): the floor only guards against an empty inventory
 
 
 DECODERS = ["rln::protocol::proof_inputs_to_rln_witness", "rln::protocol::deserialize_witness", "rln::utils::bytes_le_to_vec_fr", "rln::utils::bytes_le_to_vec_u8",
@@ -486,6 +486,16 @@ def identities(ctx, fb, cfg):
             exp.append(e)
         ctx.check(v == ("tuple", tuple(exp)), "R10-1", "%s[%s]" % (fn, cfg), "%d field elements at 32-byte strides" % n,
                   "identity reader deviates: %s" % sh(v, 300), loc(it))
+    # the writers of the same layouts (rule shared with C14 R14-3): the key generation entry points write the tuple's components
+    # in the documented order, each through fr_to_bytes_le
+    from . import c14
+    sub = type(ctx)(ctx.pid, ctx.tier)
+    c14.check_export(sub, fb, cfg, "rln::public::RLN::key_gen", "rln::protocol::keygen", 2, False)
+    c14.check_export(sub, fb, cfg, "rln::public::RLN::extended_key_gen", "rln::protocol::extended_keygen", 4, False)
+    c14.check_export(sub, fb, cfg, "rln::public::RLN::seeded_key_gen", "rln::protocol::seeded_keygen", 2, True)
+    c14.check_export(sub, fb, cfg, "rln::public::RLN::seeded_extended_key_gen", "rln::protocol::extended_seeded_keygen", 4, True)
+    for r in sub.results:
+        (ctx.ok if r.status == "ok" else ctx.fail)("R10-1", r.instance, r.reason, r.loc)
 
 
 def json_codec(ctx, fb, cfg):
